@@ -73,6 +73,8 @@ Proof.
     + apply Nat.eqb_neq in Q. rewrite getsh_upd_other by congruence. rewrite app_nil_r. reflexivity.
   - apply W; try reflexivity; try assumption; cbn -[getsh upd]; [rewrite length_upd; exact L|].
     rewrite app_nil_r. apply SD. reflexivity.
+  - apply W; try reflexivity; try assumption; cbn -[getsh upd]; [rewrite length_upd; exact L|].
+    rewrite app_nil_r. apply SD. reflexivity.
   - (* Run *) cbn [step pushed flat_map]. cbn [step] in O'. rewrite app_nil_r. destruct (active s) eqn:A.
     + destruct (ACT s (O A) P) as [A1 [A2 A3]]. split; [|exact A1].
       split; [exact O'|]. split; [exists pf; congruence|]. congruence.
@@ -228,10 +230,20 @@ Proof.
       * rewrite length_upd. exact L.
       * destruct (Nat.eq_dec i s0) as [E|E].
         -- subst s0. rewrite getsh_upd_same by lia. cbn. rewrite Nat.eqb_refl in B. cbn in B.
-           apply Z.eqb_neq in B. unfold app_val. destruct (lookup k0 (sdata (getsh (shares s) i))) as [[z|l]|]; try exact Q.
+           apply Z.eqb_neq in B. unfold app_val. destruct (lookup k0 (sdata (getsh (shares s) i))) as [[z|l|m|a b]|]; try exact Q.
            rewrite lookup_set1_other by congruence. exact Q.
         -- rewrite getsh_upd_other by exact E. exact Q.
       * rewrite B. rewrite app_nil_r. reflexivity.
+  - (* Put *) apply (W _ q); try reflexivity; try assumption; cbn -[getsh upd].
+    + rewrite length_upd. exact L.
+    + destruct (Nat.eq_dec i s0) as [E|E].
+      * subst s0. rewrite getsh_upd_same by lia. cbn. unfold put_val.
+        destruct (Z.eq_dec k0 k) as [K|K].
+        -- subst k0. rewrite Q. exact Q.
+        -- destruct (lookup k0 (sdata (getsh (shares s) i))) as [[z|l|m|a b]|]; try exact Q.
+           rewrite lookup_set1_other by congruence. exact Q.
+      * rewrite getsh_upd_other by exact E. exact Q.
+    + rewrite app_nil_r. reflexivity.
   - (* Run *) cbn [step appended flat_map]. cbn [step] in O'. rewrite !app_nil_r. destruct (active s) eqn:A.
     + destruct (ACT s fs pf q (O A) P Q) as [A1 [A2 [A3 A4]]]. split.
       * split; [exact O'|]. split; [exists fs, pf; congruence|]. split; [congruence|exact A4].
@@ -418,4 +430,30 @@ Proof.
   - rewrite A3, LP, cells_eqb_refl. rewrite recs_putline by exact E5. cbn. rewrite app_nil_r. exact E6.
   - rewrite A1, E2. f_equal.
     destruct (action_shape c (prepare c (reopen s))) as [_ [_ [_ [_ [X _]]]]]. symmetry. exact X.
+Qed.
+
+(* ---------- streak on a mapping (dict) value: one run drains it in insertion (FIFO) order ---------- *)
+Lemma mstreak_recs_filter t m : filter is_rec (mstreak_recs t m) = mstreak_recs t m.
+Proof. unfold mstreak_recs. induction m; cbn; congruence. Qed.
+
+Lemma streak_mapping_run_l c s lg lgs k fs pf m r :
+  crule c = Streak -> clog c = lg :: lgs -> pfields s = (k :: fs) :: pf ->
+  lookup k (sdata (getsh (shares s) (snd (fst lg)))) = Some (VM m) ->
+  active s = true -> file s <> None -> (r = Run \/ r = Stop) ->
+  recs (file (step c s r)) = recs (file s) ++ map (fun kv => Rec (now s) [Some (VP (fst kv) (snd kv))]) m /\
+  lookup k (sdata (getsh (shares (step c s r)) (snd (fst lg)))) = Some (VM []).
+Proof.
+  intros R C P Lk A F Hr.
+  assert (In_range : (snd (fst lg) < length (shares s))%nat).
+  { destruct (Nat.lt_ge_cases (snd (fst lg)) (length (shares s))) as [H|H]; [exact H|].
+    rewrite getsh_out in Lk by exact H. discriminate Lk. }
+  assert (SF : streak_field (shares s) lg (k :: fs) = Some k).
+  { unfold streak_field. destruct (sdata (getsh (shares s) (snd (fst lg)))) as [|[k0 v0] d]; [discriminate Lk|reflexivity]. }
+  assert (G : recs (file (action c s)) = recs (file s) ++ map (fun kv => Rec (now s) [Some (VP (fst kv) (snd kv))]) m /\
+              lookup k (sdata (getsh (shares (action c s)) (snd (fst lg)))) = Some (VM [])).
+  { unfold action. rewrite R. unfold log_streak. rewrite C, P. cbv zeta. rewrite SF, Lk.
+    rewrite file_set_log. rewrite recs_putline by exact F. rewrite mstreak_recs_filter.
+    split; [reflexivity|]. cbn -[getsh upd]. rewrite getsh_upd_same by exact In_range. cbn.
+    apply lookup_set1_same. }
+  destruct Hr; subst r; cbn [step]; rewrite A; exact G.
 Qed.
